@@ -174,7 +174,7 @@ func checkC25(c *Ctx) (string, []string) {
 func returnsSortedBy(p *packages.Package, fd *ast.FuncDecl, field string) (bool, string) {
 	var retName string
 	for _, st := range fd.Body.List {
-		if r, ok := st.(*ast.ReturnStmt); ok && len(r.Results) == 1 {
+		if r, ok := st.(*ast.ReturnStmt); ok && (len(r.Results) == 1 || (len(r.Results) == 2 && types.ExprString(r.Results[1]) == "nil")) {
 			retName = types.ExprString(r.Results[0])
 		}
 	}
